@@ -523,7 +523,11 @@ class Check:
                        if f.endswith(".v") and (f[:-2] == self.prop or f.startswith(self.prop + "_")))
         gen_coqproject()
         listed = open(os.path.join(COQ, "_CoqProject")).read()
+        unlisted_pinned = [f for f in files if ("Properties/%s.v" % f) not in listed
+                           and os.path.exists(os.path.join(pdir, "pins", f + ".json"))]
         files = [f for f in files if ("Properties/%s.v" % f) in listed] or [self.prop]
+        if unlisted_pinned:
+            self.proof_failure = {"stage": "source audit", "detail": ["pinned statement file without its proof file: %s" % f for f in unlisted_pinned]}
         targets = ["Properties/%s.vo" % f for f in files]
         target = " ".join(targets)
         cov["checker_cmd"] = "cd coq && coq_makefile -f _CoqProject -o Makefile && make -j16 %s  (coqc 8.16.1, full .vo build%s)" % (
